@@ -338,7 +338,7 @@ example : (create (run init [.setNext 65535, .create 1]) 2).2 = .okId 1 := by de
 
 end pppsess
 
-/-! ## Circuit-id keys (pkg/ebpf/loader.go MakeCircuitIDKey / HashCircuitID, unchanged) -/
+/-! ## Circuit-id keys and the MAC key (pkg/ebpf/loader.go MakeCircuitIDKey / HashCircuitID / MACToUint64, unchanged) -/
 section circuitkey
 open Bng.CircuitKey
 
@@ -380,7 +380,39 @@ theorem fnv_hash_not_injective :
     ∃ a b : List UInt8, a ≠ b ∧ a.length ≤ 64 ∧ b.length ≤ 64 ∧ CircuitKey.hash a = CircuitKey.hash b :=
   hash_not_injective CircuitKey.hash
 
+/-- The subscriber_pools key MACToUint64 is injective on hardware addresses of exactly 6 bytes (the hypothesis is
+    explicit: DHCP lets the client choose hlen 1…16, and pkg/dhcp/server.go keys the fast-path cache with whatever it
+    sent; the complement `length ≠ 6` is finding KF-mackey-hlen). -/
+theorem mackey_injective_on (a b : List UInt8) (ha : a.length = 6) (hb : b.length = 6)
+    (h : macKey a = macKey b) : a = b :=
+  macKey_injective_6 ha hb h
+
+/-- Failure outside (KF-mackey-hlen), short: ALL hardware addresses of fewer than 6 bytes share key 0 — any two DHCP
+    clients with hlen < 6 identify the same subscriber_pools entry. -/
+theorem mackey_not_injective_short (a b : List UInt8) (ha : a.length < 6) (hb : b.length < 6) :
+    macKey a = macKey b := by
+  rw [macKey_short ha, macKey_short hb]
+
+/-- Failure outside (KF-mackey-hlen), long: EVERY hardware address longer than 6 bytes shares its key with a different
+    address, its own first 6 bytes — so two clients whose chaddr agree in the first 6 bytes share one entry, and a
+    long address collides with the 6-byte MAC that is its prefix. -/
+theorem mackey_not_injective_long (a : List UInt8) (h : 6 < a.length) :
+    a.take 6 ≠ a ∧ macKey (a.take 6) = macKey a := by
+  refine ⟨?_, macKey_take (by omega)⟩
+  intro e
+  have := congrArg List.length e
+  rw [List.length_take] at this
+  omega
+
+/-- the witness pair of the finding, as the harness replays it on the real code: two 5-byte addresses, and a 16-byte
+    address against the 6-byte MAC that is its prefix -/
+theorem mackey_hlen_witness :
+    macKey [1, 2, 3, 4, 5] = macKey [0x0a, 0x0b, 0x0c, 0x0d, 0x0e] ∧
+    macKey [2, 0, 0, 0, 0, 0x0a, 0x11, 0x22, 0x33, 0x44, 0x55, 0x66, 0x77, 0x88, 0x99, 0x00] = macKey [2, 0, 0, 0, 0, 0x0a] := by
+  decide
+
 /-! non-vacuity -/
+example : ([2, 0, 0, 0, 0, 0x0a] : List UInt8).length = 6 ∧ macKey [2, 0, 0, 0, 0, 0x0a] = 0x02000000000a := by decide
 example : ([0x61, 0x62] : List UInt8).length ≤ 32 ∧ ([0x61, 0x62] : List UInt8).getLast? ≠ some 0 := by decide
 example : makeKey [0x61, 0] = makeKey [0x61] := by decide
 
